@@ -81,6 +81,11 @@ def d_tasks(msgs, tier):
             # every length up to two bytes past the extended size (beyond it the decoder only ignores the tail), then
             # the protocol maximum and beyond
             l2 = set(range(0, se + 3)) | {254, 255, 256, 300}
+            if strs:
+                # every length forks over the NUL positions of the strings it covers: types with strings get a dense
+                # boundary set instead of every length
+                l2 = {0, 1, 2, 3, sn - 2, sn - 1, sn, sn + 1, se - 1, se, se + 1, se + 2, 255, 300} | \
+                    {f.off + d for f in strs for d in (0, 1, 2)} | {f.off + f.strlen + d for f in strs for d in (-1, 0, 1)}
             l1 = {0, 1, sn - 1, sn, sn + 1, se, 255}
             if heavy:
                 first = min(f.off for f in strs)
@@ -97,8 +102,9 @@ def d_tasks(msgs, tier):
                     continue  # the second amount of appended zeros only at the boundary lengths
                 ts.append(Task('verifHarness_D_' + m.go, [1, n, k, 0], pkg=m.pkgdir, group=m.pkgdir))
         # removal of z trailing zero bytes (payload assumed to end in z zeros)
-        zs = [(sn, 1), (se, 2)] if tier == 'quick' else [(sn, 1), (sn, 2), (se, 1), (se, 3), (se + 2, 2), (se + 1, se)]
+        zs = [(sn, 1), (se, 2)] if (tier == 'quick' or strs) else [(sn, 1), (sn, 2), (se, 1), (se, 3), (se + 2, 2), (se + 1, se)]
         for n, z in zs:
-            if n - z >= 1 and z >= 1 and not (heavy and tier == 'quick'):
+            # (string-heavy types: full-length payloads fork over every NUL position; they took minutes each)
+            if n - z >= 1 and z >= 1 and not heavy:
                 ts.append(Task('verifHarness_D_' + m.go, [1, n, 1, z], pkg=m.pkgdir, group=m.pkgdir))
     return ts
